@@ -72,8 +72,10 @@ def gen_valuespec(rng, n_nodes, n_prev, depth):
             return ["str", rng.choice(["s", "a'b", "", "x y"])]
         if k < 0.5:
             return ["sym", rng.choice(["a", "foo", "None", "a-b"])] if rng.random() < 0.8 else ["kw", rng.choice(["k", "", "a-b"])]
-        if k < 0.8 and n_nodes:
+        if k < 0.76 and n_nodes:
             return ["node", rng.randrange(n_nodes)]
+        if k < 0.8:
+            return [rng.choice(["bigint", "badmodel"])]
         if n_prev:
             return ["val", rng.randrange(n_prev)]
         return ["int", 7]
@@ -119,6 +121,16 @@ def deep_history(depth):
 
 
 FIXED = [
+    # a print fails inside a model because Python's repr of an unregistered model type raises (an Integer beyond the
+    # int-to-str limit; an Object subclass with a raising __repr__), at top level and nested; then models are printed
+    {"nodes": ["model"], "values": [["expr", [["sym", "f"], ["bigint"]]], ["sym", "a"], ["mlist", [["sym", "b"], ["int", 1]]],
+                                    ["bigint"], ["badmodel"], ["list", [["badmodel"], ["sym", "c"]]],
+                                    ["list", [["sym", "d"], ["mlist", [["kw", "k"]]]]]],
+     "calls": [{"target": ["value", 0], "script": [], "defaults": {}}, {"target": ["value", 1], "script": [], "defaults": {}},
+               {"target": ["value", 2], "script": [], "defaults": {}}, {"target": ["value", 3], "script": [], "defaults": {}},
+               {"target": ["value", 1], "script": [], "defaults": {}}, {"target": ["value", 4], "script": [], "defaults": {}},
+               {"target": ["value", 6], "script": [], "defaults": {}}, {"target": ["value", 5], "script": [], "defaults": {}},
+               {"target": ["value", 2], "script": [], "defaults": {}}, {"target": ["node", 0], "script": [["look"]]}]},
     # a printer catches the failure of a nested call (Box -> Expression -> Bad) and carries on: the rest of the same call,
     # and later calls, must be as in a fresh interpreter
     {"nodes": ["plain", "plain", "model"],
